@@ -369,7 +369,7 @@ impl Bindgen for FunctionBindgen<'_, '_> {
                 let mut result = format!("{name}::empty()");
                 for (i, op) in operands.iter().enumerate() {
                     result.push_str(&format!(
-                        " | {name}::from_bits_retain((({op} as {repr}) << {}) as _)",
+                        " | {name}::from_bits_retain((({op} as u32 as {repr}) << {}) as _)",
                         i * 32
                     ));
                 }
